@@ -41,7 +41,7 @@ def fam(config, profile, only, scale=1.0, level="host"):
     return J(config, profile, level, scale, args={"--only": only}, tag=only.replace("<", "").replace(">", "").replace(",", "_"))
 
 
-def jobs_conf(tier, dispatching=False):
+def jobs_conf(tier, dispatching=False, static=()):
     # one family per property; host level, fast + checked. BLAKE and JH dispatch over ppv-lite86 back ends:
     # they are also run on every emulated level and the portable build (the full matrix is C03's business)
     if tier == "quick":
@@ -54,6 +54,9 @@ def jobs_conf(tier, dispatching=False):
         js.append(J("std", "dev", scale=0.02))
     if dispatching:
         js += levels("std", "fast", 0.15) + [J("nosimd", "fast", scale=0.15)]
+    # Groestl chooses among three implementations (AES-NI, SSSE3, SSE2); under `std` the host always takes AES-NI, the
+    # other two are reached through the compile-time dispatch of the no-std build
+    js += [J(c, "fast", scale=0.15) for c in static]
     return js
 
 
@@ -65,6 +68,7 @@ def jobs_c08(tier):
     # the compile-time dispatch (no-std) builds have their own block-feeding wrappers
     js.append(J("nostd-sse2", "fast", scale=0.15))
     js.append(J("nostd-avx2", "fast", scale=0.15))
+    js.append(J("nostd-native", "fast", scale=0.15))
     return js
 
 
@@ -93,7 +97,9 @@ def jobs_c19(tier):
 def jobs_vec(tier, program=True):
     # nostd-avx2: the whole build has +ssse3/+avx2 statically enabled while every Machine (also SSE2) is instantiated
     js = levels("std", "fast") + [J("nosimd", "fast"), J("std", "checked", "host", 0.25), J("nosimd", "checked", "host", 0.5),
-                                  J("nostd-avx2", "fast", "host", 0.15), J("nostd-ssse3", "fast", "host", 0.15)]
+                                  J("nostd-avx2", "fast", "host", 0.15), J("nostd-ssse3", "fast", "host", 0.15),
+                                  # -C target-cpu=native: every compile-time target_feature arm the host can execute
+                                  J("native", "fast", "host", 0.15), J("nostd-native", "fast", "host", 0.15)]
     if program:
         js.append(J("std", "fast", "host", args={"--only": "program"}, tag="program"))
     if tier != "quick":
@@ -107,6 +113,7 @@ NOSTD = ["nostd-sse2", "nostd-ssse3", "nostd-sse41", "nostd-avx", "nostd-avx2"]
 def jobs_c03(tier):
     js = [J("std", "fast", "host")] + levels("std", "fast") + [J("nosimd", "fast"), J("nosimd", "checked", scale=0.5)]
     js += [J(c, "fast") for c in NOSTD]
+    js += [J("native", "fast", "host", 0.5), J("nostd-native", "fast", "host", 0.5)]
     js += [J("std", "checked", "sse2", 0.5), J("std", "checked", "avx2", 0.5)]
     if tier != "quick":
         js += levels("std", "checked", 0.5) + [J("std", "dev", "host", 0.02), J("nosimd", "dev", "host", 0.02)]
@@ -117,6 +124,7 @@ def jobs_c16(tier):
     js = [J("std", "fast", "host", progress=True), J("std", "checked", "host", 0.5, progress=True)]
     js += [J("std", "fast", l, 0.3, progress=True) for l in LEVELS]
     js += [J("nosimd", "fast", "host", 0.5, progress=True)]
+    js += [J("nostd-native", "fast", "host", 0.3, progress=True)]
     if tier != "quick":
         js += [J("std", "dev", "host", 0.05, progress=True)]
     return js
@@ -133,7 +141,7 @@ def jobs_c18(tier):
 def jobs_c20(tier):
     js = [J("std", "fast"), J("nosimd", "fast"), J("nounroll", "fast"), J("nostd-sse2", "fast")]
     if tier != "quick":
-        js += [J(c, "fast") for c in NOSTD[1:]] + [J("nosimd", "checked"), J("nounroll", "checked")]
+        js += [J(c, "fast") for c in NOSTD[1:]] + [J("nostd-native", "fast"), J("nosimd", "checked"), J("nounroll", "checked")]
     return js
 
 
@@ -253,7 +261,7 @@ PLANS = {
                 "against the nibble-oriented reference F8; every case is non-trivial; distinct = FNV-1a of (configuration, case)",
     },
     "C07": {
-        "jobs": jobs_conf,
+        "jobs": lambda tier: jobs_conf(tier, False, ("nostd-sse2", "nostd-ssse3", "nostd-native")),
         "rule": "Groestl-224/256/384/512 x message: exhaustive length sweep 0..=3*block+2, generated lengths up to 8 blocks with boundary "
                 "bias, long messages, and block counts 255/256/257 (quick) and 65535/65536/65537 (thorough) with 0, 5, block-9, block-8 "
                 "trailing bytes; oracle: reference Groestl; every case is non-trivial; distinct = FNV-1a of (configuration, case)",
